@@ -64,6 +64,8 @@ def _case(draw):
     if kind == "default" and R / 10.0 < h:
         R = 10.0 * h * draw(st.floats(1.0, 50.0))
     ru = draw(st.one_of(st.none(), st.sampled_from(DIST), st.just("Foot")))
+    # the preferred distance unit in force decides what bare numbers mean (and, with no step given, nothing else)
+    pref = draw(st.sampled_from([None, None, None, "Meter", "Foot", "Kilometer", "Inch", "Mile", "Centimeter"]))
     if metric_card:
         ru = draw(st.sampled_from(["Meter", "Meter", "Centimeter", "Kilometer", "Millimeter"]))
         R = round(R * 0.3048 / 2, 1) * 2 / 0.3048 if R > 40 else R  # typical round metric ranges (even decimetres)
@@ -73,7 +75,7 @@ def _case(draw):
             n = max(1, int(R / (2 * h)))
             s = R / n
     su = draw(st.one_of(st.none(), st.sampled_from(DIST), st.just("Foot")))
-    rng = [ref.from_si(R * 0.3048, ru or "Yard"), ru]
+    rng = [ref.from_si(R * 0.3048, ru or pref or "Yard"), ru]
     if kind == "div":
         # keep exact divisibility in the unit the user types: step value = range value / n
         su = ru
@@ -81,9 +83,9 @@ def _case(draw):
     elif s is None:
         step = None
     else:
-        step = [ref.from_si(s * 0.3048, su or "Yard"), su]
+        step = [ref.from_si(s * 0.3048, su or pref or "Yard"), su]
     ts = draw(st.one_of(st.just(0.0), st.just(0.0), st.floats(1e-3, 1.0), st.sampled_from([0.01, 0.1, 0.5])))
-    return {"shot": spec, "h": h, "range": rng, "step": step, "kind": kind, "time_step": ts}
+    return {"shot": spec, "h": h, "range": rng, "step": step, "kind": kind, "time_step": ts, "pref_distance": pref, "prior": draw(gen.prior())}
 
 
 def _arg(pair):
@@ -94,8 +96,13 @@ def _arg(pair):
 def check(case):
     r = Res()
     spec, h = case["shot"], case["h"]
-    calc = build.calculator({"max_calc_step_size_feet": h})
+    calc = build.calculator({"max_calc_step_size_feet": h}, prior=case.get("prior"))
+    if case.get("prior"):
+        r.label("calculator-used-before:" + case["prior"])
     sh = build.shot(spec)
+    if case.get("pref_distance"):
+        pb.PreferredUnits.distance = Unit[case["pref_distance"]]
+        r.label("preferred-distance:" + case["pref_distance"])
     rq, sq = _arg(case["range"]), (_arg(case["step"]) if case["step"] else None)
     R = pb.PreferredUnits.distance(case["range"][0]) >> D.Foot if case["range"][1] is None else rq >> D.Foot
     if sq is None:
